@@ -1,6 +1,7 @@
 SPECIFICATION TraceSpec
 CONSTANTS
   StopAtGenesis = TRUE
+  CursorFromAccepted = TRUE
   StrictForward = TRUE
 CONSTRAINT HWM
 INVARIANT SavedAreTrueAncestorsContiguous
